@@ -31,6 +31,9 @@ class DaqmxDataReader(BaseDataReader):
 
         data = {}
         scaler_data = defaultdict(dict)
+        final_chunk_lengths = None
+        if self.final_chunk_lengths_override is not None and chunk_index == self.num_chunks - 1:
+            final_chunk_lengths = self.final_chunk_lengths_override
 
         # Data for each raw data buffer is interleaved separately, so read one after another
         for (raw_buffer_index, buffer_shape) in enumerate(get_buffer_dimensions(data_objects)):
@@ -55,6 +58,8 @@ class DaqmxDataReader(BaseDataReader):
                     this_scaler_data = combined_data[:, byte_columns].ravel()
                     this_scaler_data = scaler.data_type.from_bytes(this_scaler_data, self.endianness)
                     processed_data = scaler.postprocess_data(this_scaler_data)
+                    if final_chunk_lengths is not None:
+                        processed_data = processed_data[:final_chunk_lengths.get(obj.path, 0)]
                     if obj.data_type == types.DaqMxRawData:
                         scaler_data[obj.path][scaler.scale_id] = processed_data
                     else:
@@ -92,10 +97,10 @@ def get_daqmx_final_chunk_lengths(ordered_objects, chunk_size_bytes):
     for obj in ordered_objects:
         if not obj.has_data:
             continue
-        buffer_indices = list(set(s.raw_buffer_index for s in obj.daqmx_metadata.scalers))
-        if len(buffer_indices) == 1:
-            object_lengths[obj.path] = updated_buffer_lengths[buffer_indices[0]]
-        # Else scalers are in different buffers, not sure this is even valid
+        buffer_indices = set(s.raw_buffer_index for s in obj.daqmx_metadata.scalers)
+        if buffer_indices:
+            # When scalers are in different buffers, only the rows available in all of them are complete
+            object_lengths[obj.path] = min(updated_buffer_lengths[i] for i in buffer_indices)
     return object_lengths
 
 
